@@ -235,6 +235,14 @@ def r20b(run, cg):
     if not withs:
         return
     w = withs[0]
+    lk = dotted(w.items[0].context_expr) or ""
+    run.check("R20b", f, "the lock of first-use resolution is shared by all parsers (module level)",
+              "." not in lk and lk in cg.locks, construct=f"per-object lock for first-use resolution: {lk}",
+              message=f"resolve_forward_refs serialises on `{lk}`, a lock per parser object; the state written in the "
+                      f"region (ForwardRef objects cached by typing, Rule class attributes) is shared between parsers",
+              necessity="two different classes that mention the same reference (typing memoises List['Item']) resolve "
+                        "concurrently under different locks: one clears / rewrites the reference between the other's "
+                        "evaluation and its check - 'ForwardRef not evaluated'")
     # the unlocked fast-path test
     tests = [n for n in fa.cfg.nodes if n.kind == "test" and not lexically_locked(f, n.ast, cg.locks)
              and not any(x is n.stmt for st in w.body for x in walk_shallow(st))]
